@@ -16,6 +16,16 @@ pub(crate) use low_rank::LowRankMassMatrix;
 pub use low_rank::LowRankSettings;
 pub use transformation::Transformation;
 
+#[cfg(nuts_rs_verif)]
+pub use adapt::{
+    DiagAdaptStrategy as VerifDiagAdaptStrategy,
+    MassMatrixAdaptStrategy as VerifMassMatrixAdaptStrategy,
+};
+#[cfg(nuts_rs_verif)]
+pub use diagonal::DiagMassMatrix as VerifDiagMassMatrix;
+#[cfg(nuts_rs_verif)]
+pub use low_rank::LowRankMassMatrix as VerifLowRankMassMatrix;
+
 #[cfg(test)]
 mod tests {
     use std::{collections::HashMap, error::Error, fmt::Display};
